@@ -11,6 +11,16 @@ func init() {
 	extraGens["C16"] = (*Gen).genC16
 	extraGens["C19"] = (*Gen).genC19
 	extraGens["FRZ"] = (*Gen).genFrozen
+	extraGens["FRZB"] = func(g *Gen, n int) error {
+		if n == 0 {
+			n = 3
+		}
+		for i := 0; i < n; i++ {
+			g.emit("note case %d", i)
+			g.bigFrozenCase([]int{1026, 1025, 1024}[i%3])
+		}
+		return nil
+	}
 	extraGens["C09"] = func(g *Gen, n int) error {
 		g.dumpfiles = true
 		if n == 0 {
@@ -28,6 +38,10 @@ func (g *Gen) genFrozen(n int) error {
 	}
 	for i := 0; i < n; i++ {
 		g.emit("note case %d", i)
+		if i%29 == 13 {
+			g.bigFrozenCase([]int{1026, 1025}[(i/29)%2])
+			continue
+		}
 		m := chunkModes[i%len(chunkModes)]
 		g.curMode = m
 		g.emit("cfg chunkmode=%d", m)
@@ -488,4 +502,87 @@ func (g *Gen) genC19(n int) error {
 		g.st("case")
 	}
 	return nil
+}
+
+// bigFrozenCase: one segment with more than 1024 documents (several posting-detail and
+// doc-value chunks), read with exclusion sets that move the live count of a term across
+// a 1024 boundary - the chunk layout of a file is a function of the file alone.
+func (g *Gen) bigFrozenCase(mode int) {
+	g.curMode = mode
+	g.emit("cfg chunkmode=%d", mode)
+	nd := 1100 + g.r.Intn(200)
+	b := &BatchSpec{Name: g.fresh("b")}
+	for d := 0; d < nd; d++ {
+		id := []byte(fmt.Sprintf("%s-%d", b.Name, d))
+		doc := DocSpec{ID: id, Plain: true}
+		doc.Fields = append(doc.Fields, FieldSpec{Kind: "fld", Name: "_id", Typ: 't', Stored: true, Len: 1, Val: id, Toks: []TokSpec{{Term: id, Freq: 1}}})
+		t := TokSpec{Term: []byte("common"), Freq: 1 + d%3}
+		if d%5 != 0 {
+			t.Locs = []LocSpec{{Pos: 1 + d%7, Start: d, End: d + 3}}
+		}
+		toks := []TokSpec{t}
+		if d%2 == 0 {
+			toks = append(toks, TokSpec{Term: []byte("even"), Freq: 1})
+		}
+		doc.Fields = append(doc.Fields, FieldSpec{Kind: "fld", Name: "body", Typ: 't', Len: 2 + d%4, DV: true, Toks: toks})
+		b.Docs = append(b.Docs, doc)
+	}
+	g.emitBatch(b)
+	s := g.fresh("s")
+	g.emit("build %s %s", s, b.Name)
+	g.newBuilt(s, b)
+	f := g.fresh("f")
+	g.emit("persist %s %s", s, f)
+	g.emit("footer %s mode=%d docs=%d", f, mode, nd)
+	o := g.fresh("o")
+	g.emit("open %s %s", o, f)
+	g.alias(o, s)
+	g.emit("q count %s", o)
+	g.emit("q fields %s", o)
+	// exclusion sets: a prefix that takes the live count of "common" below 1024, every third
+	// document, and a handful only
+	var pre, third, few []int
+	for d := 0; d < nd-1024+50+g.r.Intn(40); d++ {
+		pre = append(pre, d)
+	}
+	for d := 0; d < nd; d++ {
+		if d%3 == 1 {
+			third = append(third, d)
+		}
+	}
+	few = []int{0, 1, 1023, 1024, nd - 1}
+	tail := "N,N,N,N,N,N,N,N,N,N,N,N"
+	for _, ex := range []string{"nil", intList(pre), intList(third), intList(few)} {
+		for _, term := range []string{"common", "even"} {
+			g.emit("q post %s body %s ex=%s fl=111 ops=N,N,N,A500,N,N,A1015,%s,A%d,N,N,N", o, hx([]byte(term)), ex, tail, nd-3)
+			g.emit("q post %s body %s ex=%s fl=000 ops=A1000,%s,%s,%s", o, hx([]byte(term)), ex, tail, tail, tail)
+		}
+	}
+	g.emit("q post %s body %s ex=%s fl=111 ops=%s", o, hx([]byte("common")), intList(pre), g.nexts(nd-len(pre)+1))
+	g.emit("q dict %s body aut=all lo=* hi=* probe=-", o)
+	st := g.fresh("st")
+	for _, d := range []int{0, 1, 1023, 1024, 1025, nd - 1, 512, 1030, 3} {
+		g.emit("q dv %s %s fields=body,_id doc=%d", o, st, d)
+		g.emit("q stored %s %d stop=*", o, d)
+		g.emit("q docid %s %d", o, d)
+	}
+	g.emit("q docnums %s ids=%s", o, hxList([][]byte{b.Docs[0].ID, b.Docs[1024].ID, b.Docs[nd-1].ID, []byte("absent-id")}))
+	// the same exclusions as deletions of a merge; the merged file is read back
+	for _, dr := range [][]int{pre, third} {
+		mf := g.fresh("f")
+		g.emit("merge %s segs=%s drops=%s", mf, o, intList(dr))
+		m := g.fresh("m")
+		g.emit("open %s %s", m, mf)
+		total := nd - len(dr)
+		g.emit("q count %s", m)
+		for _, term := range []string{"common", "even"} {
+			g.emit("q post %s body %s ex=nil fl=111 ops=N,N,A%d,%s,A%d,N,N,N", m, hx([]byte(term)), total/2, tail, total-3)
+			g.emit("q post %s body %s ex=nil fl=000 ops=%s", m, hx([]byte(term)), g.nexts(total+1))
+		}
+		g.emit("q dv %s - fields=body doc=%d", m, total-1)
+		g.emit("q docid %s %d", m, total-1)
+		g.emit("close %s", m)
+	}
+	g.emit("close %s", o)
+	g.st("case.bigfrozen")
 }
